@@ -5,7 +5,7 @@
               code produced.
    c03w_ok  : Handle.Write of a large buffer: chunk structure, headers, destinations, returned n.
    c03rp_ok : direct readPacketLocked calls (short packets, short buffers). *)
-From Hop Require Import Base Replay Packet.
+From Hop Require Import Base Replay Packet PacketSanse.
 From Hop Require Export PacketHex.
 Open Scope N_scope.
 
@@ -88,11 +88,9 @@ Definition rd_ob (r : rd) : N * list bytes :=
   match r with RData b => (0, [b]) | RErr => (1, []) | REOF => (2, []) | RBlock => (3, []) end.
 
 Section Run.
-  Variable ot : otbl.
-  Variable st : stbl.
+  Variable sealf : bytes -> bytes -> bytes -> bytes.          (* the AEAD the model runs with: oracle tables, *)
+  Variable openf : bytes -> bytes -> bytes -> option bytes.   (* or the Kravatte-SANSE model itself *)
   Variable kind : N.     (* 0 = server (session table), 1 = client (first session only) *)
-  Let sealf := seal_tbl st.
-  Let openf := open_tbl ot.
 
   Definition snaps (sv : list sess) : list snap := map snap_of sv.
 
@@ -168,7 +166,14 @@ Fixpoint stbl_of (sv : list sess) (ops : list op) : stbl :=
 Definition c03_case := (N * list sess * list op * list ob)%type.
 Definition c03_ok (c : c03_case) : bool :=
   let '(kind, sv, ops, obs) := c in
-  beq_list beq_ob (run (otbl_of sv ops) (stbl_of sv ops) kind sv ops) obs.
+  beq_list beq_ob (run (seal_tbl (stbl_of sv ops)) (open_tbl (otbl_of sv ops)) kind sv ops) obs.
+
+(* byte-exact: NO oracle inputs — the checker computes every Seal and Open itself with the Kravatte-SANSE model
+   (Model/PacketSanse.v) from the session keys, and must reproduce every datagram byte the Go code emitted and
+   every accept/reject decision.  The oracle fields of the operations are ignored (the driver leaves them empty). *)
+Definition c03x_ok (c : c03_case) : bool :=
+  let '(kind, sv, ops, obs) := c in
+  beq_list beq_ob (run sanse_seal sanse_open kind sv ops) obs.
 
 (* ---- large writes: only the structure is compared (the seal is a length-correct dummy) ---- *)
 Definition dummy_seal (k ad p : bytes) : bytes := p ++ repeat 0 32.
